@@ -999,6 +999,21 @@ class Interp:
                     return Const(tmpl % (tuple(consts) if isinstance(b, Tup) else consts[0]))
                 except (TypeError, ValueError):
                     pass
+            # a constant template whose conversions are all plain %s (and %%): the same text as an f-string / join
+            if tmpl is not None:
+                import re as _re
+                pieces = _re.split(r"(%%|%s)", tmpl)
+                if "%" not in "".join(x for x in pieces if x not in ("%%", "%s")) and pieces.count("%s") == len(args):
+                    parts, k = [], 0
+                    for piece in pieces:
+                        if piece == "%s":
+                            parts += self.str_parts(args[k])
+                            k += 1
+                        elif piece == "%%":
+                            parts.append(Lit("%"))
+                        elif piece:
+                            parts.append(Lit(piece))
+                    return self.mkstr(parts)
             parts = [Lit("%")]
             for x in args:
                 parts += self.str_parts(x, "%")
